@@ -68,7 +68,7 @@ func asReader(rd *simio.Reader) io.Reader {
 
 var c18Entries = []string{"version.Parse", "version.UnmarshalText", "dependency.Parse", "dependency.ParseArch", "dependency.ParseArchitectures",
 	"ParagraphReader.All", "ParagraphReader.Next", "Unmarshal:DSC", "Unmarshal:Changes", "Unmarshal:SourceParagraph", "Unmarshal:BinaryParagraph", "Unmarshal:[]BinaryIndex", "Unmarshal:[]SourceIndex",
-	"ParseDsc", "ParseChanges", "ParseControl", "ParseBinaryIndex", "ParseSourceIndex", "changelog.Parse"}
+	"ParseDsc", "ParseChanges", "ParseControl", "ParseBinaryIndex", "ParseSourceIndex", "changelog.Parse", "changelog.ParseOne", "Decoder.Decode:BinaryIndex"}
 
 func isStream(entry string) bool {
 	return !strings.HasPrefix(entry, "version.") && !strings.HasPrefix(entry, "dependency.")
@@ -212,6 +212,53 @@ func c18Invoke(entry string, input []byte, rd io.Reader) (res c18Result) {
 		val, err = control.ParseSourceIndex(c18Bufio(rd))
 	case "changelog.Parse":
 		val, err = changelog.Parse(rd)
+	case "changelog.ParseOne":
+		// the single-entry parser, called until it reports the end
+		br := c18Bufio(rd)
+		var es []changelog.ChangelogEntry
+		for i := 0; i < 100000; i++ {
+			e, e2 := changelog.ParseOne(br)
+			if e2 != nil {
+				if e2 != io.EOF {
+					err = e2
+				}
+				if e != nil && e2 != io.EOF {
+					res.Both = "non-nil *ChangelogEntry from ParseOne"
+				}
+				break
+			}
+			if e == nil {
+				err = fmt.Errorf("ParseOne returned (nil, nil)")
+				break
+			}
+			es = append(es, *e)
+		}
+		val, checkBoth = es, false
+		if err != nil {
+			val = nil
+		}
+	case "Decoder.Decode:BinaryIndex":
+		// one Decoder, one struct per call
+		dec, e := control.NewDecoder(rd, nil)
+		if e != nil {
+			err = e
+			break
+		}
+		var xs []control.BinaryIndex
+		for i := 0; i < 100000; i++ {
+			var x control.BinaryIndex
+			if e := dec.Decode(&x); e != nil {
+				if e != io.EOF {
+					err = e
+				}
+				break
+			}
+			xs = append(xs, x)
+		}
+		val, checkBoth = xs, false
+		if err != nil {
+			val = nil
+		}
 	default:
 		panic("unknown entry " + entry)
 	}
@@ -221,7 +268,7 @@ func c18Invoke(entry string, input []byte, rd io.Reader) (res c18Result) {
 		if checkBoth {
 			res.Both = usable(val)
 		}
-	} else if entry != "ParagraphReader.Next" {
+	} else if entry != "ParagraphReader.Next" && entry != "changelog.ParseOne" {
 		res.Both = ""
 	}
 	return
@@ -284,7 +331,7 @@ func c18Seed(t *rt.Tape, r *rt.Run, entry string) []byte {
 		return []byte(genDep(t, depOpts{Substvars: true, Stages: true, MaxRels: 4}, "c18.dep").render(t.Bool(1, 2, "c18.fold")))
 	case strings.HasPrefix(entry, "dependency.ParseArch"):
 		return []byte(strings.Join(archTexts(genArchList(t, "c18.arch")), " "))
-	case entry == "changelog.Parse":
+	case strings.HasPrefix(entry, "changelog."):
 		_, doc := genChangelog(t, "quick")
 		return doc
 	case strings.Contains(entry, "DSC") || entry == "ParseDsc":
